@@ -177,6 +177,16 @@ func shortCallee(c *ssa.CallCommon) string {
 	return strings.ReplaceAll(calleeName(c), cometPath+".", "")
 }
 
+// effArgs: the arguments as the resolved callee sees them — for a call through a method value the bound receiver comes first.
+func effArgs(c *ssa.CallCommon) []ssa.Value {
+	if mc, ok := c.Value.(*ssa.MakeClosure); ok {
+		if fn, ok := mc.Fn.(*ssa.Function); ok && strings.HasPrefix(fn.Synthetic, "bound method wrapper") && len(mc.Bindings) == 1 {
+			return append([]ssa.Value{mc.Bindings[0]}, c.Args...)
+		}
+	}
+	return c.Args
+}
+
 func staticCallee(c *ssa.CallCommon) *ssa.Function {
 	if c.IsInvoke() {
 		return nil
@@ -186,6 +196,18 @@ func staticCallee(c *ssa.CallCommon) *ssa.Function {
 		return f
 	case *ssa.MakeClosure:
 		if fn, ok := f.Fn.(*ssa.Function); ok {
+			// a method value (x.m) is a closure over a synthetic wrapper that just calls the method
+			if strings.HasPrefix(fn.Synthetic, "bound method wrapper") {
+				for _, b := range fn.Blocks {
+					for _, in := range b.Instrs {
+						if call, ok := in.(*ssa.Call); ok {
+							if g := call.Call.StaticCallee(); g != nil {
+								return g
+							}
+						}
+					}
+				}
+			}
 			return fn
 		}
 	}
